@@ -30,6 +30,15 @@ def main():
         common.build_runner()
         common.build_harness("debug")
         common.build_harness("release")
+        # variants used by C09 (no rayon feature), C11 (other backends), C14 (downstream crates)
+        try:
+            common.build_harness("release", rayon=False)
+            for b in ("dashu", "malachite", "num_bigint"):
+                common.build_harness("release", backend=b)
+            import props.c14 as c14
+            c14.build_downstream("downstream")
+        except Exception as e:     # a failure here is reported by the check that needs the variant
+            print("setup: optional build failed:", e)
         print("setup ok")
         return
     if args.cmd == "check":
